@@ -66,3 +66,35 @@ def count_lines(fn, *a, **kw) -> tuple[int, object, BaseException | None]:
         return inj.count, v, None
     except Exception as e:
         return inj.count, None, e
+
+
+class MutationInjector(Injector):
+    """Kill right after the j-th change of process-level state during the call.
+
+    `probe()` returns a cheap, hashable digest of the state that outlives a call (class attributes, module globals, tables of
+    dependencies).  It is evaluated at every line event inside the package; when it differs from the previous value a mutation
+    has just happened, and at the j-th one SimFault is raised - i.e. at the first instant at which that piece of in-flight
+    state exists.  This places faults where a call has just written something it may intend to undo or complete later,
+    however short that window is compared with the rest of the call."""
+
+    def __init__(self, j: int, probe):
+        super().__init__(None)
+        self.j = j
+        self.probe = probe
+        self.mutations = 0
+        self.last = None
+
+    def _local(self, frame, event, arg):
+        if event == "line":
+            self.count += 1
+            cur = self.probe()
+            if self.last is None:
+                self.last = cur
+            elif cur != self.last:
+                self.last = cur
+                self.mutations += 1
+                if not self.fired and self.mutations == self.j:
+                    self.fired = True
+                    self.where = [os.path.basename(frame.f_code.co_filename), frame.f_lineno, frame.f_code.co_name, f"mutation {self.j}"]
+                    raise SimFault(f"injected at {self.where}")
+        return self._local
